@@ -120,7 +120,7 @@ def main():
     if '--tier' in args:
         tier = args[args.index('--tier') + 1]
     seed = int(os.environ.get('VERIF_SEED') or 20260926)
-    common.TAG = prop
+    common.TAG = prop + os.environ.get('VERIF_TAG', '')
     ctx = Ctx(prop, tier, seed)
     mod = importlib.import_module('props.' + prop)
     try:
